@@ -109,6 +109,7 @@ def check(ctx, doc):
 
 
 def replay(ctx, case):
+    _doc.warmup()
     check(ctx, case)
 
 
@@ -116,6 +117,7 @@ FUZZ_IMPORTS = ['mwlib.parser.refine.uparser', 'mwlib.parser.refine.core', 'mwli
 
 
 def run_shard(ctx):
+    _doc.warmup()
     @ctx.settings(ctx.n(16000, 320000))
     @given(_doc.documents(restricted=True))
     def t(doc):
